@@ -67,6 +67,14 @@ def adv_check(pid, tier, replay, plan):
                 # A model-level counterexample is never a verdict by itself.
                 print("MODEL-COUNTEREXAMPLE property=%s config=%s clause=%s (not a verdict; see DESIGN.md 2.4)"
                       % (pid, name, r.get("clause") or r.get("violation")))
+        for name, q, th in ([] if os.environ.get("VERIF_NO_MC") else plan.get("liveness", [])):
+            ov = dict(q)
+            if thorough:
+                ov.update(th)
+            r = adv.liveness_check(tmp, pid + "_" + name, ov)
+            mc_results.append(r)
+            if not r["ok"]:
+                print("MODEL-COUNTEREXAMPLE property=%s config=%s liveness %s (not a verdict)" % (pid, name, r["violation"]))
         # 2. TLC-enumerated environment histories -> scenarios
         for name, q, th, variants in plan["env"]:
             ov = dict(q)
@@ -232,6 +240,7 @@ PLANS["C07"] = dict(
 )
 
 PLANS["C08"] = dict(
+    liveness=[("stop", dict(MinDelay=3, MaxRADelay=1, MinIv=4, MaxIv=4, Hosts='{"h1"}', Kinds='{"readerr"}', MaxIn=1, MaxT=5, MaxHolds=1, WriteFaults="TRUE"), dict(MaxIn=2, MaxT=6, Kinds='{"readerr", "timeout"}'))],
     mc=[("c08", dict(Hosts='{"h1"}', MaxIn=2, MaxT=8, MaxHolds=2, MaxRADelay=2), dict(MaxIn=3, MaxT=9)),
         ("c08uni", dict(Hosts='{"h1"}', UnicastOnly="TRUE", MaxIn=2, MaxT=7, MaxHolds=1), dict(MaxIn=3))],
     env=[("a", dict(Srcs='{"unspec", "h1"}', HoldDsts='{"h1", "allnodes"}', Terms="{TRUE, FALSE}", MaxEv=4, MaxT=7),
@@ -285,6 +294,7 @@ PLANS["C09"]["fixed"] = _c09_fixed()
 
 PLANS["C10"] = dict(
     write_evidence=False,
+    liveness=[("fault", dict(MinDelay=3, MaxRADelay=1, MinIv=4, MaxIv=4, Hosts='{"h1"}', Kinds='{"readerr"}', MaxIn=1, MaxT=5, MaxHolds=1, WriteFaults="TRUE"), dict(MaxIn=2, MaxT=6, LinkFaults="TRUE", Kinds='{"readerr", "timeout"}'))],
     mc=[("c10", dict(Hosts='{"h1"}', Kinds='{"timeout", "readerr"}', MaxIn=3, MaxT=6, Retries=2, WriteFaults="TRUE",
                      LinkFaults="TRUE", MaxHolds=0), dict(MaxIn=4, MaxT=7, MaxHolds=1))],
     env=[("a", dict(Srcs='{"h1", "unspec"}', Kinds='{"timeout", "readerr_other", "readerr_sys", "link"}',
